@@ -30,7 +30,10 @@ MANIFEST = dict(
          "yamlShape_no_crash for all value trees, shape_* (each shape error is a reject naming the field). All three models are "
          "tied to the code on every run through the compiled Lean driver (ops parse/parsestr/lex, vattrs, yshape): outcome "
          "class, diagnostic text or id, normalised attributes. Implementation-only oracles search for internal exceptions, "
-         "silent acceptance (unbalanced text, '=' without value, documented-illegal attribute combinations on boundary values) "
+         "silent acceptance (unbalanced text, '=' without value, text after the expression of dimension/implied, documented-illegal "
+         "attribute combinations on boundary values), rejected documented attribute values (every spelling lower/UPPER/Capitalised/"
+         "mixed of the case-insensitive intent value on every host, the documented deref/owner values, documented dimension/implied "
+         "forms: must be accepted) "
          "and rejected documented declarations (docs/*.rst, regression/input/*.yaml), run the command line on non-mapping YAML "
          "documents and the whole pipeline (parse, verify, generate, write wrappers) on a family of declaration shapes "
          "(unnamed / abstract arguments, function pointers, arrays, defaults).",
@@ -191,7 +194,8 @@ def run(ctx):
     ctx.cov["rule"] = ("corpus + grammar-directed declarations + single-token mutations + random token sequences over the declaration "
                        "alphabet; character-level strings (valid with random spacing, single-character mutations, random, number-"
                        "shaped, a few non-ASCII); all attribute names x value shapes on functions/arguments/variables + boundary "
-                       "values of rank x conflicting attributes; malformed YAML shapes; non-mapping YAML documents; "
+                       "values of rank x conflicting attributes; must-accept family (case variants of intent, documented deref/owner/dimension/"
+                       "implied forms) and must-reject family (trailing text in dimension/implied, intent out on values); malformed YAML shapes; non-mapping YAML documents; "
                        "non-trivial = distinct accepted structures, distinct diagnostics, distinct (attribute, shape, outcome) triples")
     ctx.assumptions += [
         "theorems are about the Lean model; the model is validated against declast.py on generated inputs only",
